@@ -160,6 +160,14 @@ def symptom(word, quote, env, status, r, recs):
     return "wrong-value"
 
 
+def _brace_pass_would_change(text):
+    import c12
+    try:
+        return any(c12.brace_expand(w) != [w] or c12.range_expand(w) != [w] for w in text.split(" ") if w)
+    except Exception:
+        return True
+
+
 def value_class(name, env, classes):
     return classes.get(name, "unset")
 
@@ -208,7 +216,9 @@ def _judge(case):
     fam = None
     if re.search(r"\$\(.+\)", exp) or exp.count("`") >= 2:
         fam = "substituted-text-is-rescanned-for-command-substitution"
-    elif quote == "unq" and "{" in exp and "}" in exp:
+    elif quote == "unq" and "{" in exp and "}" in exp and _brace_pass_would_change(exp):
+        # (only where the brace / range pass has something to expand in the inserted text: a group without a comma, `${B}`,
+        # `{}` is put back as it was, so a wrong result there is not this finding)
         fam = "substituted-text-is-rescanned-by-brace-expansion"
     elif quote == "unq" and ("*" in exp or exp.startswith("~")):
         fam = "substituted-text-is-rescanned-by-glob-or-tilde-expansion"
